@@ -8,6 +8,8 @@
 -/
 import MajoranaVerif.Driver.Util
 import MajoranaVerif.Spec.Run
+import MajoranaVerif.Model.Parser
+import MajoranaVerif.Model.SeqMachine
 
 namespace Driver.Run
 
@@ -39,6 +41,31 @@ def showStop : Spec.Stop → String
   | .error .undefinedLabel => "err:undefined-label"
   | .notWf why => "notwf:" ++ why.replace " " "_"
 
+def showHalt : Option Model.Seq.Halt → String
+  | none => "fuel"
+  | some .ret => "ret"
+  | some .offEnd => "offend"
+  | some .err => "err"
+  | some (.panic _) => "panic"
+
+/-- the cycle-accurate models of MVP-1 and MVP-2 on the same case: how the run ends, the cycle count,
+and whether the final registers and memory equal the specification's (`same`/`DIFF`) -/
+def seqModels (progBytes : List UInt8) (regs : Array (BitVec 32)) (mem : Array (BitVec 8)) (fuel : Nat)
+    (spec : Spec.Result) : String :=
+  match Model.Parser.parse progBytes with
+  | .error _ => "m1=parse-error m2=parse-error"
+  | .ok papp =>
+    let app : Model.Seq.App := { instrs := papp.instrs, labels := papp.labels }
+    let ctx : Model.Context :=
+      { Registers := GoInt.GoMap.ofList ((List.range 32).filterMap fun r => if regs[r]! != 0 then some (r, regs[r]!) else none),
+        Memory := mem.toList }
+    let one (r : Model.Seq.Result) : String :=
+      let fr := (List.range 32).map fun k => GoInt.GoMap.get1 r.final.ctx.Registers k
+      let same := fr == spec.final.regs.toList && r.final.ctx.Memory == spec.final.mem.toList
+      let cyc := match r.halt with | some .err => 0 | _ => r.cycles
+      s!"{showHalt r.halt},{cyc},{r.steps},{if same then "same" else "DIFF"}"
+    s!"m1={one (Model.Seq.runMvp1 app ⟨ctx, 0⟩ fuel)} m2={one (Model.Seq.runMvp2 app ⟨ctx, 0⟩ fuel)}"
+
 /-- `run id ; family=.. fuel=N memsize=M ; regs=r:v,.. ; mem=<hex> ; prog=<hex>` -/
 def run (line : String) : String :=
   match sections line with
@@ -52,7 +79,8 @@ def run (line : String) : String :=
       | _ => none
     let regs : Array (BitVec 32) := regsL.foldl (fun a (r, v) => if r < 32 ∧ r ≠ 0 then a.set! r v else a) (Array.replicate 32 0)
     let mem : Array (BitVec 8) := (unhex ((getKV (kvs memS) "mem").getD "")).map fun b => BitVec.ofNat 8 b.toNat
-    let text := String.fromUTF8! (ByteArray.mk (unhex ((getKV (kvs progS) "prog").getD "")))
+    let progBytes := unhex ((getKV (kvs progS) "prog").getD "")
+    let text := String.fromUTF8! (ByteArray.mk progBytes)
     match Spec.Asm.program text with
     | none => s!"R {id} not-canonical"
     | some p =>
@@ -64,7 +92,7 @@ def run (line : String) : String :=
         | a :: _, _ => some s!"L{a.toNat}w{e.loads.length}"
         | _, a :: _ => some s!"S{a.toNat}w{e.stores.length}"
         | _, _ => none)
-      s!"R {id} stop={showStop r.stop} steps={r.steps} n={p.instrs.size} regs={regsS} mem={hex16 (fnv64 r.final.mem)} path={path} accs={accs}"
+      s!"R {id} stop={showStop r.stop} steps={r.steps} n={p.instrs.size} regs={regsS} mem={hex16 (fnv64 r.final.mem)} {seqModels progBytes.toList regs mem fuel r} path={path} accs={accs}"
   | _ => "bad-line"
 
 end Driver.Run
